@@ -849,7 +849,7 @@ def run(tier, seed):
         S.note(f"{item}: {len(failed)} of {len(ALL_ATOMS)} atoms fail on this tree; composites containing them are not judged for '{fam}'")
 
     # ---- pairs
-    regs, cregs = ([1, 9, 10], [0, 11]) if thorough else ([1, 10], [0, 11])
+    regs, cregs = ([1, 10], [0, 10, 11]) if thorough else ([1, 10], [0, 11])
     wr = WRAPPERS if thorough else WRAPPERS24[1:] + WRAPPERS_EXTRA[:2]
     inst = instances(regs, cregs, wr)
     pairs = [{"regs": min_regs([a, b]), "ops": [a, b]} for a in inst for b in inst]
